@@ -111,7 +111,17 @@ func equalValue(x, y reflect.Value) bool {
 		iter := x.MapRange()
 		for iter.Next() {
 			vx := iter.Value()
-			vy := y.MapIndex(iter.Key())
+			k := iter.Key()
+			if kt := y.Type().Key(); k.Type() != kt {
+				// MapIndex panics unless the key is assignable to the map's key
+				// type. JSON object keys are strings, possibly of different
+				// named types; anything else cannot be equal.
+				if k.Kind() != reflect.String || kt.Kind() != reflect.String {
+					return false
+				}
+				k = k.Convert(kt)
+			}
+			vy := y.MapIndex(k)
 			if !vy.IsValid() || !equalValue(vx, vy) {
 				return false
 			}
